@@ -1,5 +1,6 @@
 import XProofs.Limits
 import XModel.Opt
+import XModel.OptBest
 /-!
 # C15 — the optimizer log is truthful: reload reproduces a row, steps never end worse
 -/
@@ -24,6 +25,40 @@ theorem C15_reload_row {R : Type} (c : Cfg R) (i : Nat) (row : Row R) (s : St R)
     s'.vAct = row.vAct ∧ s'.tAct = row.tAct ∧
     ∀ j, s'.knobs j = row.knobs j ∨ s'.knobs j = c.mulW j (c.divW j (row.knobs j)) :=
   reload_frame c i row s r s' hrow h
+
+/-- **`step(take_best=True)` that returns normally** ends either on the point the loop left with every active target
+    within tolerance, or — reloading index `n + argmin pens`, where `pens` are the penalties of the rows logged
+    during the call starting at log position `n` — on the knobs and flags of that row (bit for bit, or through the
+    weight round trip), whose penalty is minimal among `pens`, in particular not above the start row's -/
+theorem C15_take_best_spec {R K : Type} [LinearOrder K] (c : Cfg R) (its : List (Iter R)) (n : Nat)
+    (start : K) (rest : List K) (s s' : St R)
+    (h : optStep c its (some (n + Argmin.argmin (start :: rest))) s = (.ok (), s')) :
+    ∃ sl, optBody c its s = (.ok (), sl) ∧
+      ((sl.lastWithin = true ∧ s' = sl ∧ ∃ res, c.f s'.knobs = some res ∧ c.within res s'.tAct = true) ∨
+       (sl.lastWithin = false ∧ ∃ row, sl.log[n + Argmin.argmin (start :: rest)]? = some row ∧
+          s'.vAct = row.vAct ∧ s'.tAct = row.tAct ∧
+          (∀ j, s'.knobs j = row.knobs j ∨ s'.knobs j = c.mulW j (c.divW j (row.knobs j))) ∧
+          ∃ v, (start :: rest)[Argmin.argmin (start :: rest)]? = some v ∧ (∀ y ∈ start :: rest, v ≤ y) ∧ v ≤ start)) := by
+  obtain ⟨sl, hb, hcase⟩ := optStep_take_best c its _ s s' h
+  refine ⟨sl, hb, ?_⟩
+  rcases hcase with ⟨hw, he⟩ | ⟨hw, row, hrow, hv, ht, hk⟩
+  · refine Or.inl ⟨hw, he, ?_⟩
+    subst he
+    -- the flag is the tolerance predicate at the knobs in the container (coherence, C09)
+    have hcoh : Coh c s' := by
+      unfold optBody at hb
+      simp only [bind'] at hb
+      cases ha : addPoint c s with
+      | mk r1 s1 =>
+        rw [ha] at hb
+        cases r1 with
+        | error e => simp at hb
+        | ok u =>
+          simp only at hb
+          exact optLoop_coh c its s1 s' (addPoint_coh c s s1 ha) hb
+    exact matched_of_coh c s' hcoh hw
+  · obtain ⟨_, v, hv', hmin⟩ := Argmin.argmin_min (start :: rest) (by simp)
+    exact Or.inr ⟨hw, row, hrow, hv, ht, hk, v, hv', hmin, hmin start (by simp)⟩
 
 /-- every operation only appends to the log: rows are never rewritten -/
 theorem C15_log_append_only {R : Type} (c : Cfg R) (its : List (Iter R)) (tb : Option Nat) : LM (optStep c its tb) :=
